@@ -4,7 +4,9 @@
                                                           2 = Propagate m
        -> 0 :: n :: outcomes (Yields s -> 0 w t ; Raises e k -> 1 e w t)
      2 :: k  -> 0 :: pcode (observed_class_ptype k)
-   The same program over the [documented] machine: first integer 3 instead of 1. *)
+   The same program over the [documented] machine: first integer 3 instead of 1.
+     4 :: a :: b -> 0 :: a * b + (- a)    codec self-test (also keeps Z.add/Z.mul/Z.opp, which the
+                                          generic driver needs, in the extracted module) *)
 From LV Require Import Model.PTypeSpec.
 Require Import ExtrOcamlBasic.
 
@@ -47,6 +49,7 @@ Definition run_c08 (inp : list Z) : list Z :=
       | Some c => [0; pcode (observed_class_ptype c)]
       | None => emalformed
       end
+  | 4 :: a :: b :: [] => [0; a * b + (- a)]
   | _ => emalformed
   end.
 
